@@ -18,7 +18,7 @@ def run(ctx):
     su = lambda f: f in FUNCS
     lib_gate.gate(ctx, P, only={"tsk_table_collection_subset", "tsk_table_collection_union", "tsk_check_subset_equality"})
     seen = lib_guards.analyse(ctx, P, funcs=FUNCS)
-    lib_guards.presence(ctx, seen, funcs=FUNCS)
+    lib_guards.presence(ctx, seen, funcs=FUNCS, P=P)
     lib_module.options_plumbing(ctx, P, funcs={"TableCollection_subset", "TableCollection_union", "TableCollection_canonicalise"})
     lib_module.array_flags(ctx, P, only=ms)
     lib_module.parsed_used(ctx, P, only=ms)
